@@ -72,6 +72,8 @@ type fnEnc struct {
 	localAllocs []string // refs of non-escaping allocations
 	lockAtEntry string
 	loopSels    map[string]int
+	hitOrd      map[string]int
+	siteOrd     map[ssa.Instruction]map[string]int
 }
 
 type retInfo struct {
@@ -134,13 +136,9 @@ func (e *fnEnc) analyseCFG() {
 	for h := range e.loops {
 		heads = append(heads, h)
 	}
-	sort.Slice(heads, func(i, j int) bool {
-		pi, pj := e.loopPos(heads[i]), e.loopPos(heads[j])
-		if pi != pj {
-			return pi < pj
-		}
-		return heads[i].Index < heads[j].Index
-	})
+	// go/ssa creates the skeleton blocks of a loop statement when it reaches the statement, so the
+	// index order of loop heads is the source order of the loop statements
+	sort.Slice(heads, func(i, j int) bool { return heads[i].Index < heads[j].Index })
 	for i, h := range heads {
 		e.loops[h].ordinal = i
 	}
@@ -171,6 +169,15 @@ func (e *fnEnc) analyseCFG() {
 				e.vc.P.instrWrites(in, true, li.writes)
 				if ci, ok := in.(ssa.CallInstruction); ok {
 					e.callWrites(ci.Common(), li)
+				}
+				if ci, ok := in.(ssa.CallInstruction); ok && e.top && e.contract != nil {
+					for _, n := range e.callNames(ci.Common()) {
+						for site := range e.contract.HitSites {
+							if strings.HasPrefix(site, n+"#") {
+								li.writes[hitsKey(site).Name] = true
+							}
+						}
+					}
 				}
 				if _, ok := in.(*ssa.Next); ok {
 					li.writes["ITER!"+e.prefix+in.(*ssa.Next).Iter.Name()] = true
@@ -411,7 +418,7 @@ func (e *fnEnc) havoc(keyName string) {
 func (e *fnEnc) havocSummary(s *Summary, all bool) {
 	if all || (s != nil && s.All) {
 		for _, k := range e.vc.sortedKeyNames() {
-			if strings.HasPrefix(k, "ITER!") || k == "CLOCK" || k == "LOCK!held" {
+			if strings.HasPrefix(k, "ITER!") || strings.HasPrefix(k, "HITS!") || k == "CLOCK" || k == "LOCK!held" {
 				continue
 			}
 			old := e.cur[k]
